@@ -447,33 +447,7 @@ func c13Caches(c *core.Ctx, pkg *packages.Package) {
 			}
 		}
 	}
-	// fills guarded by topology stamp equality
-	type setter struct {
-		name, cache, sub string
-	}
-	for _, s := range []setter{{"Ring.setCachedShuffledSubring", "shuffledSubringCache", "p2"}, {"Ring.setCachedShuffledSubringWithLookback", "shuffledSubringWithLookbackCache", "p4"}} {
-		f := an.FindFunc(pkg, s.name)
-		if f == nil {
-			c.Miss("R3", "func="+s.name, "not found")
-			continue
-		}
-		c.Analysed(f.String())
-		g := f.Graph()
-		var stores []an.Loc
-		f.InspectShallow(func(n ast.Node) bool {
-			if as, ok := n.(*ast.AssignStmt); ok && len(as.Lhs) == 1 {
-				if ix, ok := as.Lhs[0].(*ast.IndexExpr); ok && f.Canon(ix.X) == "recv."+s.cache {
-					stores = append(stores, g.Locate(as))
-				}
-			}
-			return true
-		})
-		t := an.Table{G: g, From: g.EntryLoc(), MayOnly: true, Atoms: []an.Atom{{Name: "same", Values: []string{"T", "F"}}},
-			Binder:  &an.Binder{Fn: f, Bool: map[string]string{"recv.lastTopologyChange.Equal(" + s.sub + ".lastTopologyChange)": "same"}},
-			Targets: stores, Want: func(r an.Row, _ int) an.Tri { return an.FromBool(r["same"] == "T") }}
-		res := t.Run()
-		c.Check(res.OK() && len(stores) == 1, "R3", "fill="+s.cache, f.Pos(), "cache fill reachable only when the ring's topology stamp equals the stamp the subring was computed from: "+res.Summary(), res.Rows)
-	}
+	c13Fills(c, pkg, "R3")
 	// R4 keys
 	type keyUse struct {
 		fn   string
@@ -735,5 +709,38 @@ func c13Validity(c *core.Ctx, pkg *packages.Package) {
 		// other fields' comparisons are unrelated conditions on other statements; they must not influence this target
 		res := t.Run()
 		c.Check(res.OK(), "R6", "validity:field="+fld, asg.Pos(), fmt.Sprintf("bound lowered to %s ⇔ windowStart ≤ %s < bound, independent of any other condition: %s", fld, fld, res.Summary()), res.Rows)
+	}
+}
+
+// c13Fills: a computed shard is stored in a cache only when the ring's topology stamp still equals the
+// stamp the shard was computed from (shared with C12.R7: a stale shard would make the answer depend on
+// the interleaving, not only on the ring content).
+func c13Fills(c *core.Ctx, pkg *packages.Package, R string) {
+	// fills guarded by topology stamp equality
+	type setter struct {
+		name, cache, sub string
+	}
+	for _, s := range []setter{{"Ring.setCachedShuffledSubring", "shuffledSubringCache", "p2"}, {"Ring.setCachedShuffledSubringWithLookback", "shuffledSubringWithLookbackCache", "p4"}} {
+		f := an.FindFunc(pkg, s.name)
+		if f == nil {
+			c.Miss(R, "func="+s.name, "not found")
+			continue
+		}
+		c.Analysed(f.String())
+		g := f.Graph()
+		var stores []an.Loc
+		f.InspectShallow(func(n ast.Node) bool {
+			if as, ok := n.(*ast.AssignStmt); ok && len(as.Lhs) == 1 {
+				if ix, ok := as.Lhs[0].(*ast.IndexExpr); ok && f.Canon(ix.X) == "recv."+s.cache {
+					stores = append(stores, g.Locate(as))
+				}
+			}
+			return true
+		})
+		t := an.Table{G: g, From: g.EntryLoc(), MayOnly: true, Atoms: []an.Atom{{Name: "same", Values: []string{"T", "F"}}},
+			Binder:  &an.Binder{Fn: f, Bool: map[string]string{"recv.lastTopologyChange.Equal(" + s.sub + ".lastTopologyChange)": "same"}},
+			Targets: stores, Want: func(r an.Row, _ int) an.Tri { return an.FromBool(r["same"] == "T") }}
+		res := t.Run()
+		c.Check(res.OK() && len(stores) == 1, R, "fill="+s.cache, f.Pos(), "cache fill reachable only when the ring's topology stamp equals the stamp the subring was computed from: "+res.Summary(), res.Rows)
 	}
 }
